@@ -232,12 +232,38 @@ def verboseOp (j : Json) : R Json := do
   | .observable c => return withCols c.names c.csvFields (effectsOut (pairsOut iOut) (c.runV verbose fmt c.init evs))
   | _ => .error "c17.verbose: metric or observable expected"
 
+/-- op `c17.logger_fn`: `Logger.new` (msg_gen omitted / callable / non-callable) driven through epoch-end events with `Logger.runFn`
+(logger_fn = print / callable / non-callable).
+in : period, msg ("omitted"|"callable"|"noncallable"), fn ("print"|"callable"|"noncallable"), kwargs_repr, epochs [...] (the epoch ends fired,
+     in order);  a callable msg_gen is scripted as `"gen " + str(epoch)`.
+out: {"handed": [...], "printed": [...], "err": null | kind} -/
+def loggerFn (j : Json) : R Json := do
+  let period ← jInt (← fld j "period")
+  let kw ← jStr (← fld j "kwargs_repr")
+  let es ← (← jArr (← fld j "epochs")).toList.mapM jInt
+  let msg : MsgGenArg Unit ← (match (← jStr (← fld j "msg")) with
+    | "omitted" => pure .omitted
+    | "callable" => pure (.callable (fun _ e => "gen " ++ toString e))
+    | "noncallable" => pure .nonCallable
+    | x => throw s!"c17.logger_fn: msg {x}")
+  let fn : LoggerFnArg ← (match (← jStr (← fld j "fn")) with
+    | "print" => pure .print
+    | "callable" => pure .callable
+    | "noncallable" => pure .nonCallable
+    | x => throw s!"c17.logger_fn: fn {x}")
+  let c := Logger.new period msg kw
+  let strs (l : List String) : Json := .arr (l.map Json.str).toArray
+  match c.runFn fn ⟨[], []⟩ (es.map (fun e => Ev.epochEnd e ())) with
+  | .ok s => return Json.mkObj [("handed", strs s.handed), ("printed", strs s.printed), ("err", .null)]
+  | .error e => return Json.mkObj [("handed", strs []), ("printed", strs []), ("err", .str e.toString)]
+
 def handle (op : String) (j : Json) : Option (R Json) :=
   match op with
   | "c17.run" => some (run j)
   | "c17.default_msg" => some (defaultMsgs j)
   | "c17.strip" => some (strip j)
   | "c17.verbose" => some (verboseOp j)
+  | "c17.logger_fn" => some (loggerFn j)
   | _ => none
 
 end Drv.C17
